@@ -304,6 +304,20 @@ theorem verKey_spec (P : Prims) (jws : Json) (sig : Option Json) (k : Json) (pay
         simp only [List.any_cons, List.any_nil, Bool.or_false, pairOk]
         exact ⟨trivial, fun sg h => verOne_acc P jws k sg h⟩
 
+/-- what `nested` is at recursion depth `f` -/
+def nestedAt (P : Prims) (jws : Json) (all : Bool) : Nat → Option Json → Json → Option Stage
+  | 0 => fun _ _ => none
+  | f + 1 => fun s k => verIoF P jws f s k all
+
+theorem verIoF_single (P : Prims) (jws : Json) (f : Nat) (sig : Option Json) (jwk : Json) (all : Bool)
+    (hk : keyList jwk = none) : verIoF P jws f sig jwk all = verKey P jws sig jwk := by
+  cases f <;> simp [verIoF, hk]
+
+theorem verIoF_list (P : Prims) (jws : Json) (f : Nat) (sig : Option Json) (jwk : Json) (all : Bool) (keys : List Json)
+    (hk : keyList jwk = some keys) :
+    verIoF P jws f sig jwk all = verKeys (nestedAt P jws all f) P jws sig keys all := by
+  cases f <;> simp [verIoF, hk, nestedAt]
+
 /-- C01, single key.  `jose_jws_ver` reports success exactly when the JWS has a payload
     and some signature object passes the pair check under the key (see `pairOk_spec`).
     In particular an empty or absent signature list with no flattened signature fails. -/
@@ -314,7 +328,7 @@ theorem ver_single (P : Prims) (jws : Json) (sig : Option Json) (jwk : Json) (al
   cases hp : payloadOf jws with
   | none => rfl
   | some pay =>
-    simp only [verIo, hk]
+    simp only [verIo, verIoF_single P jws _ sig jwk all hk]
     obtain ⟨h1, h2⟩ := verKey_spec P jws sig jwk pay
     cases hv : verKey P jws sig jwk with
     | none => simp [hv] at h1; simp [h1]
@@ -329,7 +343,7 @@ theorem ver_single (P : Prims) (jws : Json) (sig : Option Json) (jwk : Json) (al
 theorem ver_stream (P : Prims) (jws : Json) (sig : Option Json) (jwk : Json) (all : Bool)
     (hk : keyList jwk = none) (sg : Stage) (hio : verIo P jws sig jwk all = some sg) (cs : List Bs) :
     (run sg cs).2 = keyOk P jws sig jwk cs.flatten := by
-  simp only [verIo, hk] at hio
+  simp only [verIo, verIoF_single P jws _ sig jwk all hk] at hio
   obtain ⟨h1, h2⟩ := verKey_spec P jws sig jwk cs.flatten
   rw [run_V (h2 sg hio) cs]
   simp only [hio] at h1
@@ -449,9 +463,10 @@ theorem ver_keys (P : Prims) (jws : Json) (sig : Option Json) (jwk : Json) (all 
     ver P jws sig jwk all =
       (if all then !keys.isEmpty && (List.range keys.length).all (keyOkAt P jws sig keys pay)
        else (List.range keys.length).any (keyOkAt P jws sig keys pay)) := by
-  simp only [ver, hp, verIo, hk, verKeys, hsz, Bool.not_true, Bool.false_eq_true, if_false]
+  simp only [ver, hp, verIo, verIoF_list P jws _ sig jwk all keys hk, verKeys, hsz, Bool.not_true, Bool.false_eq_true, if_false]
+  generalize nestedAt P jws all (jdepth jwk) = nested
   -- value and accumulation property of every sub-verifier
-  have hval : ∀ i, i < keys.length → subVal pay (subFor P jws sig keys i) = keyOkAt P jws sig keys pay i := by
+  have hval : ∀ i, i < keys.length → subVal pay (subFor nested P jws sig keys i) = keyOkAt P jws sig keys pay i := by
     intro i hi
     simp only [subFor, keyOkAt]
     have hget : keys[i]? = some keys[i] := List.getElem?_eq_getElem hi
@@ -460,7 +475,7 @@ theorem ver_keys (P : Prims) (jws : Json) (sig : Option Json) (jwk : Json) (all 
     cases hv : verKey P jws (sigFor sig i) keys[i] with
     | none => simp [hv, subVal] at this ⊢; exact this
     | some sg => simp [hv, subVal] at this ⊢; exact this
-  have hacc : ∀ sg, some sg ∈ (List.range keys.length).map (subFor P jws sig keys) → AccT sg := by
+  have hacc : ∀ sg, some sg ∈ (List.range keys.length).map (subFor nested P jws sig keys) → AccT sg := by
     intro sg hsg
     simp only [List.mem_map, List.mem_range] at hsg
     obtain ⟨i, hi, hs⟩ := hsg
@@ -468,22 +483,226 @@ theorem ver_keys (P : Prims) (jws : Json) (sig : Option Json) (jwk : Json) (all 
     have hget : keys[i]? = some keys[i] := List.getElem?_eq_getElem hi
     simp only [hget, hflat keys[i] (List.getElem_mem hi)] at hs
     exact (verKey_spec P jws (sigFor sig i) keys[i] pay).2 sg hs
-  have hmain := plex_subs all ((List.range keys.length).map (subFor P jws sig keys)) pay hacc
-  have hall : ((List.range keys.length).map (subFor P jws sig keys)).all (subVal pay) =
+  have hmain := plex_subs all ((List.range keys.length).map (subFor nested P jws sig keys)) pay hacc
+  have hall : ((List.range keys.length).map (subFor nested P jws sig keys)).all (subVal pay) =
       (List.range keys.length).all (keyOkAt P jws sig keys pay) := by
     rw [List.all_map]
     exact all_congr_mem _ _ _ (fun i hi => hval i (List.mem_range.mp hi))
-  have hany : ((List.range keys.length).map (subFor P jws sig keys)).any (subVal pay) =
+  have hany : ((List.range keys.length).map (subFor nested P jws sig keys)).any (subVal pay) =
       (List.range keys.length).any (keyOkAt P jws sig keys pay) := by
     rw [List.any_map]
     exact any_congr_mem _ _ _ (fun i hi => hval i (List.mem_range.mp hi))
-  have hemp : ((List.range keys.length).map (subFor P jws sig keys)).isEmpty = keys.isEmpty := by
+  have hemp : ((List.range keys.length).map (subFor nested P jws sig keys)).isEmpty = keys.isEmpty := by
     cases keys <;> simp [List.range_succ]
   rw [hall, hany, hemp] at hmain
   rw [← hmain]
-  by_cases hc : (all && ((List.range keys.length).map (subFor P jws sig keys)).any Option.isNone) = true
+  by_cases hc : (all && ((List.range keys.length).map (subFor nested P jws sig keys)).any Option.isNone) = true
   · simp only [hc, if_true]
   · simp only [hc, Bool.false_eq_true, if_false]
+
+/-! ### key lists inside key lists (after fix F29 the inner list inherits `all`) -/
+
+/-- verdict for element `i` of a key list whose elements may themselves be key lists: `nv` judges those -/
+def elemOk (nv : Option Json → Json → Bool) (P : Prims) (jws : Json) (sig : Option Json) (keys : List Json) (pay : Bs)
+    (i : Nat) : Bool :=
+  match keys[i]? with
+  | some k => (match keyList k with
+      | some _ => nv (sigFor sig i) k
+      | none => keyOk P jws (sigFor sig i) k pay)
+  | none => false
+
+/-- the specification of verification with a key list, one level: with `all` every element, else some element -/
+def listOk (nv : Option Json → Json → Bool) (P : Prims) (jws : Json) (sig : Option Json) (keys : List Json) (pay : Bs)
+    (all : Bool) : Bool :=
+  sigSizeOk sig keys.length &&
+    (if all then !keys.isEmpty && (List.range keys.length).all (elemOk nv P jws sig keys pay)
+     else (List.range keys.length).any (elemOk nv P jws sig keys pay))
+
+/-- one level of `jose_jws_ver_io` on a key list, given what the recursive calls on nested lists do -/
+theorem verKeys_val (nested : Option Json → Json → Option Stage) (nv : Option Json → Json → Bool)
+    (P : Prims) (jws : Json) (sig : Option Json) (keys : List Json) (pay : Bs) (all : Bool)
+    (hnA : ∀ s k sg, nested s k = some sg → AccT sg) (hnV : ∀ s k, subVal pay (nested s k) = nv s k) :
+    subVal pay (verKeys nested P jws sig keys all) = listOk nv P jws sig keys pay all ∧
+    (∀ sg, verKeys nested P jws sig keys all = some sg → AccT sg) := by
+  have hval : ∀ i, i < keys.length → subVal pay (subFor nested P jws sig keys i) = elemOk nv P jws sig keys pay i := by
+    intro i hi
+    simp only [subFor, elemOk]
+    have hget : keys[i]? = some keys[i] := List.getElem?_eq_getElem hi
+    simp only [hget]
+    cases hkl : keyList keys[i] with
+    | some l => simp only [hnV]
+    | none =>
+      simp only
+      have := (verKey_spec P jws (sigFor sig i) keys[i] pay).1
+      cases hv : verKey P jws (sigFor sig i) keys[i] with
+      | none => simp [hv, subVal] at this ⊢; exact this
+      | some sg => simp [hv, subVal] at this ⊢; exact this
+  have hacc : ∀ sg, some sg ∈ (List.range keys.length).map (subFor nested P jws sig keys) → AccT sg := by
+    intro sg hsg
+    simp only [List.mem_map, List.mem_range] at hsg
+    obtain ⟨i, hi, hs⟩ := hsg
+    simp only [subFor] at hs
+    have hget : keys[i]? = some keys[i] := List.getElem?_eq_getElem hi
+    simp only [hget] at hs
+    cases hkl : keyList keys[i] with
+    | some l => simp only [hkl] at hs; exact hnA _ _ sg hs
+    | none => simp only [hkl] at hs; exact (verKey_spec P jws (sigFor sig i) keys[i] pay).2 sg hs
+  constructor
+  · simp only [verKeys, listOk]
+    cases hsz : sigSizeOk sig keys.length with
+    | false => simp [subVal]
+    | true =>
+      simp only [Bool.not_true, Bool.false_eq_true, if_false, Bool.true_and]
+      have hmain := plex_subs all ((List.range keys.length).map (subFor nested P jws sig keys)) pay hacc
+      have hall : ((List.range keys.length).map (subFor nested P jws sig keys)).all (subVal pay) =
+          (List.range keys.length).all (elemOk nv P jws sig keys pay) := by
+        rw [List.all_map]
+        exact all_congr_mem _ _ _ (fun i hi => hval i (List.mem_range.mp hi))
+      have hany : ((List.range keys.length).map (subFor nested P jws sig keys)).any (subVal pay) =
+          (List.range keys.length).any (elemOk nv P jws sig keys pay) := by
+        rw [List.any_map]
+        exact any_congr_mem _ _ _ (fun i hi => hval i (List.mem_range.mp hi))
+      have hemp : ((List.range keys.length).map (subFor nested P jws sig keys)).isEmpty = keys.isEmpty := by
+        cases keys <;> simp [List.range_succ]
+      rw [hall, hany, hemp] at hmain
+      rw [← hmain]
+      by_cases hc : (all && ((List.range keys.length).map (subFor nested P jws sig keys)).any Option.isNone) = true
+      · simp only [hc, if_true, subVal]
+      · simp only [hc, Bool.false_eq_true, if_false, subVal]
+        have hA : AccT (.plex all (branchesOf (((List.range keys.length).map (subFor nested P jws sig keys)).filterMap id))) := by
+          apply AccT.node
+          apply accB_branchesOf
+          intro l hl
+          simp only [List.mem_filterMap, id] at hl
+          obtain ⟨o, ho, rfl⟩ := hl
+          exact hacc l ho
+        have := run_V hA [pay]
+        simp only [List.flatten_cons, List.flatten_nil, List.append_nil] at this
+        rw [this]
+  · intro sg hsg
+    simp only [verKeys] at hsg
+    split at hsg
+    · simp at hsg
+    · split at hsg
+      · simp at hsg
+      · simp only [Option.some.injEq] at hsg
+        subst hsg
+        apply AccT.node
+        apply accB_branchesOf
+        intro l hl
+        simp only [List.mem_filterMap, id] at hl
+        obtain ⟨o, ho, rfl⟩ := hl
+        exact hacc l ho
+
+/-- the specification of `jose_jws_ver_io` on an arbitrarily nested key argument, `f` levels deep: a single key
+    must have a signature object that passes under it; a key list demands, with `all`, EVERY element (and is not
+    empty), else SOME element — and an element that is itself a key list is judged by the same rule with the same
+    `all` -/
+def specF (P : Prims) (jws : Json) (pay : Bs) : Nat → Option Json → Json → Bool → Bool
+  | 0, sig, jwk, all =>
+    (match keyList jwk with
+     | some keys => listOk (fun _ _ => false) P jws sig keys pay all
+     | none => keyOk P jws sig jwk pay)
+  | f + 1, sig, jwk, all =>
+    (match keyList jwk with
+     | some keys => listOk (fun s k => specF P jws pay f s k all) P jws sig keys pay all
+     | none => keyOk P jws sig jwk pay)
+
+/-- **C01 for every shape of the key argument** (single key, array, JWKSet, lists nested in lists to any
+    depth): the verifier the model builds accumulates the payload and its verdict is `specF` -/
+theorem verIoF_spec (P : Prims) (jws : Json) (pay : Bs) (f : Nat) :
+    ∀ (sig : Option Json) (jwk : Json) (all : Bool),
+      subVal pay (verIoF P jws f sig jwk all) = specF P jws pay f sig jwk all ∧
+      (∀ sg, verIoF P jws f sig jwk all = some sg → AccT sg) := by
+  induction f with
+  | zero =>
+    intro sig jwk all
+    simp only [verIoF, specF]
+    cases hk : keyList jwk with
+    | none =>
+      simp only
+      obtain ⟨h1, h2⟩ := verKey_spec P jws sig jwk pay
+      refine ⟨?_, h2⟩
+      cases hv : verKey P jws sig jwk with
+      | none => simp [hv, subVal] at h1 ⊢; exact h1
+      | some sg => simp [hv, subVal] at h1 ⊢; exact h1
+    | some keys =>
+      simp only
+      exact verKeys_val (fun _ _ => none) (fun _ _ => false) P jws sig keys pay all
+        (fun _ _ sg h => by simp at h) (fun _ _ => by simp [subVal])
+  | succ f ih =>
+    intro sig jwk all
+    simp only [verIoF, specF]
+    cases hk : keyList jwk with
+    | none =>
+      simp only
+      obtain ⟨h1, h2⟩ := verKey_spec P jws sig jwk pay
+      refine ⟨?_, h2⟩
+      cases hv : verKey P jws sig jwk with
+      | none => simp [hv, subVal] at h1 ⊢; exact h1
+      | some sg => simp [hv, subVal] at h1 ⊢; exact h1
+    | some keys =>
+      simp only
+      exact verKeys_val (fun s k => verIoF P jws f s k all) (fun s k => specF P jws pay f s k all) P jws sig keys pay all
+        (fun s k sg h => (ih s k all).2 sg h) (fun s k => (ih s k all).1)
+
+/-- one-shot verification of any key argument: exactly the specification -/
+theorem ver_spec (P : Prims) (jws : Json) (sig : Option Json) (jwk : Json) (all : Bool) (pay : Bs)
+    (hp : payloadOf jws = some pay) :
+    ver P jws sig jwk all = specF P jws pay (jdepth jwk) sig jwk all := by
+  obtain ⟨h1, h2⟩ := verIoF_spec P jws pay (jdepth jwk) sig jwk all
+  simp only [ver, hp, verIo]
+  cases hv : verIoF P jws (jdepth jwk) sig jwk all with
+  | none => simp [hv, subVal] at h1; simp [h1]
+  | some sg =>
+    simp only [hv, subVal] at h1
+    have := run_V (h2 sg hv) [pay]
+    simp only [List.flatten_cons, List.flatten_nil, List.append_nil] at this
+    simp only [this, h1]
+
+/-- streaming verification of any key argument: the verdict of `done` is the specification on the concatenated
+    feeds, for every chunking -/
+theorem ver_stream_spec (P : Prims) (jws : Json) (sig : Option Json) (jwk : Json) (all : Bool) (sg : Stage)
+    (hio : verIo P jws sig jwk all = some sg) (cs : List Bs) :
+    (run sg cs).2 = specF P jws cs.flatten (jdepth jwk) sig jwk all := by
+  obtain ⟨h1, h2⟩ := verIoF_spec P jws cs.flatten (jdepth jwk) sig jwk all
+  simp only [verIo] at hio
+  rw [run_V (h2 sg hio) cs]
+  simp only [hio, subVal] at h1
+  exact h1
+
+/-- **F29 stated outright**: a key list nested in a key list does not weaken `all` — if verification with `all`
+    succeeds on `[.., inner, ..]` where `inner` is a list of plain keys, every key of `inner` has a signature object
+    that passes under it -/
+theorem nested_all_demands_every_key (P : Prims) (jws : Json) (f : Nat) (outer inner : List Json) (pay : Bs) (i : Nat)
+    (jwk innerJ : Json) (hk : keyList jwk = some outer) (hi : outer[i]? = some innerJ) (hki : keyList innerJ = some inner)
+    (hflat : ∀ k ∈ inner, keyList k = none)
+    (h : specF P jws pay (f + 1) none jwk true = true) :
+    ∀ j, j < inner.length → keyOk P jws none inner[j]! pay = true := by
+  simp only [specF, hk, listOk, if_true, Bool.and_eq_true, List.all_eq_true, List.mem_range] at h
+  obtain ⟨_, _, hall⟩ := h
+  have hlt : i < outer.length := by
+    rcases Nat.lt_or_ge i outer.length with h | h
+    · exact h
+    · simp [List.getElem?_eq_none h] at hi
+  have he := hall i hlt
+  simp only [elemOk, hi, hki, sigFor] at he
+  intro j hj
+  cases f with
+  | zero =>
+    simp only [specF, hki, listOk, if_true, Bool.and_eq_true, List.all_eq_true, List.mem_range] at he
+    obtain ⟨_, _, hall2⟩ := he
+    have := hall2 j hj
+    have hget : inner[j]? = some inner[j] := List.getElem?_eq_getElem hj
+    simp only [elemOk, hget, hflat inner[j] (List.getElem_mem hj), sigFor] at this
+    simpa [getElem!_pos inner j hj] using this
+  | succ f =>
+    simp only [specF, hki, listOk, if_true, Bool.and_eq_true, List.all_eq_true, List.mem_range] at he
+    obtain ⟨_, _, hall2⟩ := he
+    have := hall2 j hj
+    have hget : inner[j]? = some inner[j] := List.getElem?_eq_getElem hj
+    simp only [elemOk, hget, hflat inner[j] (List.getElem_mem hj), sigFor] at this
+    simpa [getElem!_pos inner j hj] using this
 
 /-- the empty key set never verifies -/
 theorem empty_keys_fail (P : Prims) (jws : Json) (sig : Option Json) (jwk : Json) (all : Bool)
@@ -495,7 +714,7 @@ theorem empty_keys_fail (P : Prims) (jws : Json) (sig : Option Json) (jwk : Json
     rcases hs with hs | hs
     · rw [ver_keys P jws sig jwk all [] pay hk (by simp) hp (by simpa using hs)]
       cases all <;> simp
-    · simp [ver, hp, verIo, hk, verKeys, hs]
+    · simp [ver, hp, verIo, verIoF_list P jws _ sig jwk all [] hk, verKeys, hs]
 
 /-- the empty signature list never verifies -/
 theorem empty_signatures_fail (P : Prims) (jws jwk : Json) (pay : Bs)
